@@ -75,8 +75,37 @@ pub fn drive(tr: &mut Tracer, rng: &mut StdRng, thorough: bool) {
         for x in [1.0f64, -1.0, 2.5, 0.0, 1e300, f64::NAN, f64::INFINITY] {
             let bits = if f.contains("f32") { (x as f32).to_bits() as u128 } else { x.to_bits() as u128 };
             for zsc in [0i64, 2] {
-                tr.emit(json!({"op": "div", "form": f, "a": {"bits": u128_to_json(bits)}, "b": dec(false, "0", zsc)}));
+                let w = if f.contains("f32") { 32 } else { 64 };
+                tr.emit(json!({"op": "div", "form": f, "a": {"bits": u128_to_json(bits), "w": w}, "b": dec(false, "0", zsc)}));
             }
+        }
+    }
+    // normal float operands on either side: the division must agree with the one on the exact decimal of the float
+    let nf = if thorough { 600 } else { 120 };
+    for i in 0..nf {
+        let x: f64 = match i % 8 {
+            0 => [1.0, -1.0, 2.0, -2.0, 0.5, 10.0, 3.0, 0.1][rng.gen_range(0..8)],
+            1 => rng.gen_range(1..100000) as f64 / 8.0,
+            2 => 10f64.powi(rng.gen_range(-12..15)),
+            3 => -(rng.gen_range(1..1000) as f64) * 0.001,
+            _ => { let m: f64 = rng.gen_range(1.0..2.0); let e: i32 = rng.gen_range(-40..40); (if rng.gen_bool(0.5) { m } else { -m }) * 2f64.powi(e) }
+        };
+        let l = pick_len(rng, 40);
+        let d = dec(rng.gen_bool(0.5), &shaped_digits(rng, l), rng.gen_range(-10..=10));
+        if json_to_bigint(&d) == 0.into() { continue; }
+        tr.reserve(12);
+        tr.emit(json!({"op": "reset"}));
+        for (ty, w, bits) in [("f64", 64, x.to_bits() as u128), ("f32", 32, (x as f32).to_bits() as u128)] {
+            if w == 32 && !(x as f32).is_normal() { continue; }
+            let fv = json!({"bits": u128_to_json(bits), "w": w});
+            for f in [format!("val_{}", ty), format!("ref_{}", ty), format!("val_r{}", ty), format!("assign_{}", ty), format!("assign_r{}", ty)] {
+                tr.emit(json!({"op": "div", "form": f, "a": d, "b": fv}));
+            }
+            tr.emit(json!({"op": "reset"}));
+            for f in [format!("{}_val", ty), format!("{}_ref", ty), format!("r{}_val", ty), format!("r{}_ref", ty)] {
+                tr.emit(json!({"op": "div", "form": f, "a": fv, "b": d}));
+            }
+            tr.emit(json!({"op": "reset"}));
         }
     }
     // 2. small operands through every spelling and every primitive type
